@@ -31,6 +31,7 @@ func Run(cfg hx.Config) error {
 	runNodejs(r, rnd.Fork(), cfg)
 	runRuby(r, rnd.Fork(), cfg)
 	runJava(r, rnd.Fork(), cfg)
+	runGobin(r, rnd.Fork(), cfg)
 	if err := runOsOwned(r, rnd.Fork(), cfg); err != nil {
 		return err
 	}
